@@ -111,7 +111,7 @@ def cases(draw, switches):
     if draw(st.integers(0, 3)) == 0:
         c["options"]["default_str_storage"] = 80
     c["paren_unary"] = "paren_unary" in switches
-    return c
+    return full.add_layout(draw, c, switches)
 
 
 def campaign(seed, n, switches=frozenset()):
@@ -119,6 +119,8 @@ def campaign(seed, n, switches=frozenset()):
 
     def body(case):
         meta = case.pop("_meta")
+        if meta.get("drawn_layout"):
+            stats.classes["drawn_layout"] += 1
         case = dict(case)
         case["_stats"] = stats
         try:
